@@ -75,7 +75,7 @@ end Ext
 inductive PyVal where
   | none                      -- None
   | str (parsed : Option Ext) -- a string; `parsed` = what `float(s)` gives (numpy's astype(float) in check_bounds)
-  | complex (re : Ext)        -- a complex number with non-zero imaginary part
+  | complex (re : Ext)        -- a complex number `re + 1j` (non-zero, integer imaginary part)
   | bool (b : Bool)           -- Python treats it as the integer it is
   | int (n : Int)
   | flt (x : Ext)
@@ -193,6 +193,13 @@ def needReal (v : PyVal) : Except VErr Ext :=
   | some x => .ok x
   | Option.none => .error .typeError
 
+/-- `np.isclose(2 * v, np.round(2 * v))` on an arbitrary argument: `2 * None` and `np.round('11')` raise TypeError; a
+complex number (the catalogue's `1j`: integer imaginary part) is rounded componentwise, so only its real part matters
+and nothing is raised here (the `isinstance(…, Real)` test that follows refuses it) -/
+def halfIntView : PyVal → Except VErr Bool
+  | .complex re => .ok (halfIntClose re)
+  | v => (needReal v).map halfIntClose
+
 def Pred.eval (env : Env) : Pred → Except VErr Bool
   | .notRealEither a b => .ok (!(env.v a).isReal || !(env.v b).isReal)
   | .notReal a => .ok (!(env.v a).isReal)
@@ -230,10 +237,10 @@ def Pred.eval (env : Env) : Pred → Except VErr Bool
       if (env.v a).isIntegral then .ok false
       else (needReal (env.v a)).map fun x => !x.isInf          -- abs(None) / abs('1'): TypeError
   | .notHalfIntEither a b => do
-      let x ← needReal (env.v a)                                -- 2 * None, np.round('11'): TypeError
-      if !(halfIntClose x) then return true
-      let y ← needReal (env.v b)
-      return !(halfIntClose y)
+      let x ← halfIntView (env.v a)
+      if !x then return true
+      let y ← halfIntView (env.v b)
+      return !y
   | .dimNotInt a =>
       match (env.v a).real? with
       | Option.none => .ok true
